@@ -30,7 +30,17 @@ fn main() {
             let mut out = Vec::new();
             for op in tk[2].split(',') {
                 let f: Vec<&str> = op.split(':').collect();
-                let path = PathBuf::from(format!("/src/p{}", f[1]));
+                // ids from 100: names that are not valid UTF-8 and differ only in the invalid byte (their lossy forms are equal)
+                let id: u32 = f[1].parse().unwrap();
+                let path = if id >= 100 {
+                    use std::os::unix::ffi::OsStringExt;
+                    let mut b = b"/src/n".to_vec();
+                    b.push(0xF0 + (id - 100) as u8);
+                    b.extend_from_slice(b".bin");
+                    PathBuf::from(std::ffi::OsString::from_vec(b))
+                } else {
+                    PathBuf::from(format!("/src/p{}", id))
+                };
                 let mt = t(f[2].parse().unwrap());
                 let sz: u64 = f[3].parse().unwrap();
                 match f[0] {
